@@ -257,7 +257,9 @@ def _discharge(ob: Obligation, tier: str):
     if dd:      # debugging aid: keep the query of an undecided obligation
         os.makedirs(dd, exist_ok=True)
         import re as _re
-        open(os.path.join(dd, _re.sub(r"[^\w.:-]", "_", f"{ob.name}@{getattr(ob, 'path', '')}")[-150:] + ".smt2", "w").write(smt2)
+        fname = _re.sub(r"[^A-Za-z0-9_.:-]", "_", ob.name + "@" + str(getattr(ob, "path", "")))[-150:] + ".smt2"
+        with open(os.path.join(dd, fname), "w") as fh:
+            fh.write(smt2)
 
 
 def _symbols(f, cache={}):
